@@ -5,6 +5,7 @@
 // Scenario parameters (sc.P): members []string, init string, wait bool,
 // mode: event | nic | poll | rr | lastused | polldefault | lastused-unattached, rr []string (ids of the
 // RoundRobinPoller in mode rr).
+// renew = a second transport generation built from the same configuration objects (same scheduler instance).
 // Steps: select{id} | write{n} | writeBegin{n} | writeEnd | memberRead{src,n} | read | close | counters | asUnreliable |
 // negotiationParams.  writeBegin starts a Write that stays in flight inside the member it was routed to (the member applies
 // back-pressure) until writeEnd lets it return; selections issued in between queue up behind the write.
@@ -53,7 +54,7 @@ type member struct {
 	feed   chan feedReq
 	closed chan struct{}
 	gate   *wgate
-	cerr   bool // Close reports an error (after closing)
+	cerr   bool   // Close reports an error (after closing)
 	badGrp string // "gid": empty transport group id; "count": wrong group total (the configuration must be refused)
 }
 
@@ -292,25 +293,30 @@ func run(sc *h.Scenario) *h.Rec {
 	members := map[string]*member{}
 	tm := tmulti.TransportMap{}
 	gate := &wgate{}
-	for i, id := range ids {
-		m := newMember(id, i, len(ids))
-		m.gate = gate
-		if i == len(ids)-1 && (badCfg == "gid" || badCfg == "count") {
-			m.badGrp = badCfg
-		}
-		for _, x := range cerr {
-			if x == id {
-				m.cerr = true
+	mkMembers := func() {
+		members = map[string]*member{}
+		tm = tmulti.TransportMap{}
+		for i, id := range ids {
+			m := newMember(id, i, len(ids))
+			m.gate = gate
+			if i == len(ids)-1 && (badCfg == "gid" || badCfg == "count") {
+				m.badGrp = badCfg
+			}
+			for _, x := range cerr {
+				if x == id {
+					m.cerr = true
+				}
+			}
+			members[id] = m
+			isMember[id] = true
+			if i%2 == 1 {
+				tm[transport.TransportID(id)] = closerMember{m}
+			} else {
+				tm[transport.TransportID(id)] = m
 			}
 		}
-		members[id] = m
-		isMember[id] = true
-		if i%2 == 1 {
-			tm[transport.TransportID(id)] = closerMember{m}
-		} else {
-			tm[transport.TransportID(id)] = m
-		}
 	}
+	mkMembers()
 	cfg := tmulti.TransportConfig{TransportMap: tm, InitialTransportID: transport.TransportID(initID)}
 	evCh := make(chan transport.TransportID)
 	nicCh := make(chan string)
@@ -361,9 +367,9 @@ func run(sc *h.Scenario) *h.Rec {
 
 	closed := false
 	var pendingRead chan readRes
-	var heldRet chan string      // result of the Write that is in flight
+	var heldRet chan string // result of the Write that is in flight
 	var heldRelease chan struct{}
-	heldSel := ""                // last member id selected while the write was in flight
+	heldSel := "" // last member id selected while the write was in flight
 	defer func() {
 		cleanup := "ok"
 		if heldRelease != nil {
@@ -511,6 +517,26 @@ func run(sc *h.Scenario) *h.Rec {
 				m.mu.Unlock()
 			}
 			rec.Log("MtOp", "a", "write", "n", k, "ret", ret, "to", to)
+		case "renew":
+			// the application (iscp reconnect) builds a NEW multi transport from the same configuration objects - in particular the same
+			// scheduler - over fresh member connections; the old one is closed first
+			if !closed {
+				guard(func() { mt.Close() })
+			}
+			mkMembers()
+			cfg.TransportMap = tm
+			ret := "ok"
+			var nerr error
+			if guard(func() { mt, nerr = tmulti.NewTransport(cfg) }) {
+				ret = "panic"
+			} else if nerr != nil {
+				ret = "error"
+			}
+			closed = false
+			rec.Log("MtOp", "a", "new", "ret", ret)
+			if ret != "ok" {
+				return rec
+			}
 		case "writeBegin":
 			k := st.N
 			if k < 1 || k > 20 || heldRet != nil {
